@@ -1,11 +1,17 @@
 package main
 
 import (
+	"context"
 	"fmt"
+	"os"
+	"path/filepath"
 	"strconv"
 	"strings"
 	"time"
 
+	"github.com/nextdns/nextdns/discovery"
+	"github.com/nextdns/nextdns/proxy"
+	"github.com/nextdns/nextdns/resolver"
 	"github.com/nextdns/nextdns/resolver/query"
 )
 
@@ -21,7 +27,10 @@ import (
 
 func runWedge(k int, proto string, payloads [][]byte) string {
 	up := &scripted{pick: func(q query.Query) outcome { return outcome{kind: "S", n: 40, salt: 1} }}
-	srv, err := startServerWith(up, uint(k), 400*time.Millisecond)
+	// wired as run.go wires the daemon by default: hosts file in front of the upstream, bogus-priv,
+	// lease-file and hosts discovery behind it (every hostile message also goes through the name
+	// and address lookups of package discovery, with whatever name the broken parse left)
+	srv, err := startServerFull(up, uint(k), 400*time.Millisecond, wedgeDir)
 	if err != nil {
 		return "ERR " + err.Error()
 	}
@@ -75,8 +84,42 @@ func runWedge(k int, proto string, payloads [][]byte) string {
 	return fmt.Sprintf("answered=%d/%d after=%s", a, n, after)
 }
 
+var wedgeDir string
+
+func startServerFull(up resolver.Resolver, inflight uint, timeout time.Duration, dir string) (*server, error) {
+	hostsFile := filepath.Join(dir, "hosts")
+	leaseFile := filepath.Join(dir, "dnsmasq.leases")
+	_ = os.WriteFile(hostsFile, []byte("127.0.0.1 localhost\n10.9.8.7 nas.lan NAS\nfd00::7 nas.lan\n"), 0644)
+	_ = os.WriteFile(leaseFile, []byte("1700000000 aa:bb:cc:dd:ee:01 10.9.8.20 printer 01:aa:bb:cc:dd:ee:01\n"), 0644)
+	discovery.VerifSetHostsFiles([]string{hostsFile})
+	discovery.VerifSetLeaseFile(leaseFile, "dnsmasq")
+	hosts := &discovery.Hosts{}
+	s := &server{done: make(chan error, 1)}
+	s.addr = "127.0.0.1:" + strconv.Itoa(freePort())
+	ctx, cancel := context.WithCancel(context.Background())
+	s.cancel = cancel
+	p := proxy.Proxy{Addrs: []string{s.addr}, Upstream: up, Timeout: timeout, MaxInflightRequests: inflight,
+		BogusPriv: true, LocalResolver: discovery.Resolver{hosts}, DiscoveryResolver: discovery.Resolver{hosts, &discovery.DHCP{}}}
+	go func() { s.done <- p.ListenAndServe(ctx) }()
+	probe := []byte{0xab, 0xcd, 1, 0, 0, 1, 0, 0, 0, 0, 0, 0, 1, 'p', 0, 0, 1, 0, 1}
+	deadline := time.Now().Add(5 * time.Second)
+	for time.Now().Before(deadline) {
+		if r, err := udpExchange(s.addr, probe, 200*time.Millisecond); err == nil && len(r) >= 12 {
+			return s, nil
+		}
+		select {
+		case err := <-s.done:
+			return nil, fmt.Errorf("ListenAndServe returned early: %v", err)
+		default:
+		}
+	}
+	cancel()
+	return nil, fmt.Errorf("server did not come up")
+}
+
 func init() {
 	areas["wedge"] = func(c *Ctx) error {
+		wedgeDir = c.dir
 		one := func(k int, proto string, ps [][]byte) {
 			var hs []string
 			for _, p := range ps {
